@@ -209,19 +209,21 @@ type class struct {
 func classes(thorough bool) []class {
 	if thorough {
 		return []class{
+			{k: 0, u: 0, rots: 12, cross: true},
 			{k: 0, u: 1, rots: 12, cross: true}, {k: 1, u: 0, rots: 12, cross: true},
-			{k: 0, u: 2, rots: 6, cross: true}, {k: 1, u: 1, rots: 6, cross: true}, {k: 2, u: 0, rots: 6, cross: true},
+			{k: 0, u: 2, rots: 12, cross: true}, {k: 1, u: 1, rots: 12, cross: true}, {k: 2, u: 0, rots: 12, cross: true},
 			{k: 1, u: 2, rots: 2, cross: true}, {k: 2, u: 1, rots: 2, cross: true},
 			{k: 3, u: 0, rots: 2, cross: true},
 			{k: 2, u: 2, rots: 1, few: true}, {k: 3, u: 1, rots: 1, few: true},
-			{k: 4, u: 0, rots: 1, core: true, few: true},
+			{k: 4, u: 0, rots: 1, few: true},
 		}
 	}
 	return []class{
-		{k: 0, u: 1, rots: 2}, {k: 1, u: 0, rots: 2},
-		{k: 0, u: 2, rots: 1}, {k: 1, u: 1, rots: 1}, {k: 2, u: 0, rots: 1},
-		{k: 2, u: 1, rots: 1, few: true},
-		{k: 3, u: 0, rots: 1, few: true},
+		{k: 0, u: 0, rots: 12},
+		{k: 0, u: 1, rots: 12}, {k: 1, u: 0, rots: 12},
+		{k: 0, u: 2, rots: 3}, {k: 1, u: 1, rots: 3}, {k: 2, u: 0, rots: 3},
+		{k: 2, u: 1, rots: 1},
+		{k: 3, u: 0, rots: 1},
 	}
 }
 
